@@ -508,6 +508,33 @@ func genLuaScripts(repo string) (string, error) {
 	sb.WriteString("import Gostatix.Model.Lua\n")
 	sb.WriteString("namespace Gostatix.Generated.LuaScripts\n")
 	sb.WriteString("open Gostatix.Lua\n\n")
+	// Names of the generated definitions.  collectLuaScripts named every script after the Go variable
+	// that holds it; the proofs mention these names, so a script is first looked up by its SHAPE (the
+	// term printed with positional names for its locals, per file): renaming the Go variable, renaming
+	// Lua locals or hoisting the script into a package-level variable then keeps the name.
+	luaShapes = map[string]string{}
+	taken := map[string]bool{}
+	for _, sc := range scripts {
+		if !sc.ok {
+			continue
+		}
+		chunk, err := luaparse.Parse(strings.NewReader(sc.text), sc.lean)
+		if err != nil {
+			continue
+		}
+		pp := &luaPrinter{canon: luaPositional}
+		body := pp.scopedBlock(chunk, "")
+		if pp.capture {
+			continue
+		}
+		sum := sha1.Sum([]byte(body))
+		key := sc.file + "|" + hex.EncodeToString(sum[:])
+		luaShapes[key] = sc.lean
+		if canon, ok := luaShapeNames[key]; ok && !taken[canon] {
+			sc.lean = canon
+		}
+		taken[sc.lean] = true
+	}
 	for _, sc := range scripts {
 		p := &luaPrinter{}
 		var body string
@@ -552,6 +579,18 @@ func genLuaScripts(repo string) (string, error) {
 	sb.WriteString("]\n\nend Gostatix.Generated.LuaScripts\n")
 	return sb.String(), nil
 }
+
+// luaShapes: shape key -> name, of the last run (for -dump-lua-shapes)
+var luaShapes map[string]string
+
+// luaPositional: names for the k-th declared local of a script when computing its shape
+var luaPositional = func() []string {
+	out := make([]string, 96)
+	for i := range out {
+		out[i] = fmt.Sprintf("l%d_", i+1)
+	}
+	return out
+}()
 
 func orDash(s string) string {
 	if s == "" {
